@@ -5,3 +5,4 @@ import Model.Find
 import Model.Stream
 import Model.Retry
 import Model.Writers
+import Model.Mux
